@@ -77,6 +77,15 @@ def run(ctx):
     c01_deductive.run(ctx)
     from contracts import c_portrefs
     ctx.verify(c_portrefs.engine(), c_portrefs.VERIFY, min_obligations={c_portrefs.VERIFY[0].key: 10})
+    ctx.verify(c_portrefs.resolve_engine(), c_portrefs.VERIFY_RESOLVE, min_obligations={c_portrefs.VERIFY_RESOLVE[0].key: 6})
+    key, obs, info = c_portrefs.update_ref_deps_obligations()
+    for u in info.get("unsupported", []):
+        ctx.unsupported.append((key, u))
+    if len(obs) < 8 and not info.get("unsupported"):
+        ctx.checker_errors.append(f"only {len(obs)} obligations for update_ref_deps")
+    ctx.discharge(obs, key + " [loop bodies; concatenations of 1-3 parts]", info)
+    ctx.assumptions.append("update_ref_deps: one arbitrary element per loop; dependent concatenations unrolled for 1-3 "
+                           "parts (bounded in the arity, symbolic in the parts)")
     # array rule: element k of an n-array receives bits [k*w, (k+1)*w) of an n*w wide connection (all n, w, k)
     from contracts import c_arrays
     obs, info = c_arrays.obligations()
